@@ -36,7 +36,7 @@ impl Swarm {
             leading: *r.pick(&[0, 0, 2, 8]),
             rich_chunks: r.chance(1, 3),
             fault_rate: *r.pick(&[0, 0, 6, 9, 14]),
-            long: r.chance(1, 120),
+            long: r.chance(1, 60),
         }
     }
 }
@@ -620,6 +620,10 @@ pub fn schedule(r: &mut Rng, len: usize) -> Vec<usize> {
     cuts.sort_unstable();
     cuts.dedup();
     cuts.retain(|&c| c > 0 || len == 0);
+    // a zero-byte read before any data arrived: the receiver parses an empty buffer first
+    if r.chance(1, 6) {
+        cuts.insert(0, 0);
+    }
     // zero-byte reads: repeat a cut
     if r.chance(1, 3) {
         let k = r.below(cuts.len());
@@ -690,6 +694,17 @@ pub fn apply_fault(r: &mut Rng, wire: &mut Vec<u8>, heads: &[(usize, usize)]) ->
                 return Some(Fault { kind: "lane", at, arg: byte as u64 });
             }
         }
+    }
+    // dictionary fault: a multi-byte token a text layer, proxy or confused peer might put on the
+    // wire, inserted at the very start of a head (or at the chosen position)
+    if r.chance(1, 12) {
+        const DICT: &[&[u8]] = &[b"\xEF\xBB\xBF", b"\xFF\xFE", b"\xFE\xFF", b"\r\n", b"\n", b"\r", b"HTTP/1.1 ", b"GET ", b"PRI * HTTP/2.0\r\n\r\nSM\r\n\r\n", b"\0\0\0", b" ", b"\t", b"0\r\n\r\n", b"\x16\x03\x01"];
+        let tok = *r.pick(DICT);
+        let at = if !heads.is_empty() && r.chance(2, 3) { r.pick(heads).0.min(wire.len()) } else { pos };
+        for (i, b) in tok.iter().enumerate() {
+            wire.insert(at + i, *b);
+        }
+        return Some(Fault { kind: "dict_insert", at, arg: tok.len() as u64 });
     }
     Some(match r.below(10) {
         0 | 1 => {
